@@ -7,7 +7,7 @@ import (
 // C13 — reads return the latest write through dirty set, cache, database and reopen.
 // Explicit-state BFS over StateLedger operation sequences against a map reference.
 func slOps(full bool) []string {
-	ops := []string{"commit", "get A a", "set A a x", "set A ab x", "set A a y",
+	ops := []string{"commit", "flush", "commitp", "get A a", "set A a x", "set A ab x", "set A a y",
 		"del A a", "del A ab", "get A ab",
 		"snap", "rev 0", "rev 1", "fin", "reopen", "purge",
 		"bal A 5", "non A 3", "code A c1",
@@ -62,9 +62,13 @@ func c13Check(c *mc.Ctx, in *slInst, path []string) {
 		{
 			accs := []string{"A", "B"}
 			var mism [][2]string
-			mism = append(mism, slCompareQueries(in.l, in.cur, accs, "before-gets")...)
+			win := ""
+			if in.pending {
+				win = "(in flush-commit window) "
+			}
+			mism = append(mism, slCompareQueries(in.l, in.cur, accs, win+"before-gets")...)
 			mism = append(mism, slCompareReads(in.l, in.cur, accs, "")...)
-			mism = append(mism, slCompareQueries(in.l, in.cur, accs, "after-gets")...)
+			mism = append(mism, slCompareQueries(in.l, in.cur, accs, win+"after-gets")...)
 			c.Add("oracle_evaluations", 1)
 			if len(in.cur.st) > 0 {
 				c.Add("states_with_live_keys", 1)
